@@ -8,6 +8,9 @@ package main
 // Exit 2: no verdict (load or type-check failure, checker panic).
 
 import (
+	"os/exec"
+	"path/filepath"
+
 	"golang.org/x/tools/go/ssa"
 
 	"encoding/json"
@@ -47,6 +50,7 @@ func main() {
 	flag.StringVar(&knownPath, "known", "", "known-findings file (default <verif>/known_findings.json)")
 	dump := flag.String("dump", "", "debug: dump edge facts of the named function")
 	flag.BoolVar(&verbose, "v", false, "print every obligation")
+	dumpobs := flag.String("dumpobs", "", "write every obligation as a JSON line to this file")
 	flag.Parse()
 	debug.SetGCPercent(400)
 	if *tier == "" {
@@ -159,6 +163,12 @@ func main() {
 			}
 			os.Exit(0)
 		}
+		if *dumpobs != "" {
+			dumpObligations(ctx, *dumpobs)
+		}
+		if *tier == "thorough" && os.Getenv("VCHECK_NO_EXTRAS") == "" && replayOb == nil {
+			runThoroughExtras(ctx, *verif, id)
+		}
 		cmd := "bin/vcheck -p " + id + " -tier " + *tier
 		if rc := ctx.Finish(*verif, start, pr.Level, pr.Explanation, append(append([]string{}, baseTrusted...), pr.Trusted...), cmd); rc > exit {
 			exit = rc
@@ -203,6 +213,76 @@ func dumpFunc(p *Prog, name string) {
 			fmt.Printf("  facts at b%d:\n", b.Index)
 			for _, f := range e.factsAtBlock(b, nil) {
 				fmt.Println("      ", f.String())
+			}
+		}
+	}
+}
+
+func dumpObligations(c *Ctx, path string) {
+	f, err := os.Create(path)
+	if err != nil {
+		return
+	}
+	defer f.Close()
+	enc := json.NewEncoder(f)
+	for _, o := range c.obs {
+		_ = enc.Encode(o)
+	}
+}
+
+// runThoroughExtras: self-test on mutants and seeded changes, second-toolchain comparison, cross-reference tools (tools/thorough_extras.py).
+// Their results are recorded in the evidence; a missed mutant or seed is a weakness of the checker, not a violation of /repo. A non-ok obligation
+// that only the second toolchain's build reports is merged as a failure (the verdict must not depend on the SSA builder's version).
+func runThoroughExtras(c *Ctx, verifDir, id string) {
+	script := filepath.Join(verifDir, "tools", "thorough_extras.py")
+	if _, err := os.Stat(script); err != nil {
+		c.Note("thorough extras skipped: %s not found", script)
+		return
+	}
+	tmp, err := os.MkdirTemp("", "vextras-")
+	if err != nil {
+		return
+	}
+	defer os.RemoveAll(tmp)
+	primary := filepath.Join(tmp, "primary.jsonl")
+	out := filepath.Join(tmp, "extras.json")
+	dumpObligations(c, primary)
+	cmd := exec.Command("python3", script, id, primary, out)
+	cmd.Env = append(os.Environ(), "VERIF_REPO="+c.P.Dir)
+	if b, err := cmd.CombinedOutput(); err != nil {
+		c.Note("thorough extras failed to run: %v %s", err, string(b))
+		return
+	}
+	b, err := os.ReadFile(out)
+	if err != nil {
+		return
+	}
+	var ex map[string]interface{}
+	if json.Unmarshal(b, &ex) != nil {
+		return
+	}
+	c.extras = ex
+	if m, ok := ex["mutants"].(map[string]interface{}); ok {
+		fmt.Printf("  self-test: mutants detected %v / %v, missed %v, false alarms %v\n", m["detected"], m["total"], m["missed"], m["false_alarms"])
+	}
+	if s, ok := ex["seeds"].([]interface{}); ok {
+		det := 0
+		for _, x := range s {
+			if xm, ok := x.(map[string]interface{}); ok && xm["status"] == "detected" {
+				det++
+			}
+		}
+		fmt.Printf("  self-test: seeded changes detected %d / %d\n", det, len(s))
+	}
+	if t, ok := ex["second_toolchain"].(map[string]interface{}); ok {
+		fmt.Printf("  second toolchain (%v): identical=%v\n", t["toolchain"], t["identical"])
+		if diffs, ok := t["differences"].([]interface{}); ok {
+			for _, d := range diffs {
+				dm := d.(map[string]interface{})
+				if dm["kind"] != "ok" && dm["second"].(float64) > dm["primary"].(float64) {
+					c.Fail(fmt.Sprint(dm["rule"]), "undecided", fmt.Sprint(dm["function"]), "second-toolchain divergence", "-",
+						fmt.Sprintf("the checker built with %v reports a %v obligation here that the primary build discharges", t["toolchain"], dm["kind"]))
+				}
 			}
 		}
 	}
